@@ -112,6 +112,24 @@ class C01(Base):
                 for ready in (False, True):
                     for mode in ("clean", "list", "list_all", "list_json"):
                         yield self.deep_case(depth, closed, ready, mode)
+        # unusual but legal configuration values on small documents: offsets that are empty, blank, begin with a
+        # character outside ASCII or are otherwise not `+hh:mm`; tag names that are empty, blank or hold blanks;
+        # the empty target name; documents of one or two bytes and documents that are only a tag
+        offs = gen.MALFORMED_OFF + gen.LENIENT_OFF + ["\uff0b09:00", "\u00e909:00", " ", "\t+09:00", "\u221209:00 ", "+", "-", "\u2212"]
+        docs = ["<tl to='%s'>x</tl>" % gen.READY_T, "a\n<tl to='%s'>\nx\n</tl>\nb\n" % gen.READY_T, "<tl to=''>x</tl>", "<tl to>x</tl>",
+                "<rm name='a'>x</rm><tl to='%s' unwrap-block>\n{\ny\n}\n</tl>" % gen.PEND_T]
+        for off in offs:
+            for d in docs:
+                yield self.mk(d, "<", ">", Cfg(off=off), "config-oddities")
+        tiny = ["", "<", ">", "<>", "<a", "a>", "<a>", "</", "</>", "</a>", "<tl>", "<rm>", "<tl", "é", "<é>", "\n", "<\n>", "< >", "<  >", "<tl >", "< tl>"]
+        names = ["", " ", "a b", "\u00e9", "tl ", " tl", "/", "/tl", "=", "'", "tl='x'"]
+        for nm in names:
+            for d in tiny + ["<%s to='%s'>x</%s>" % (nm, gen.READY_T, nm), "<%s name='a'>x</%s>" % (nm, nm), "<%s>" % nm, "</%s>" % nm]:
+                for cfg in (Cfg(tl=nm), Cfg(rm=nm), Cfg(tl=nm, rm=nm, targets=("",))):
+                    yield self.mk(d, "<", ">", cfg, "config-oddities")
+        for d in tiny:
+            for cfg in (proto.DEFAULT_CFG, Cfg(targets=("",)), Cfg(off="")):
+                yield self.mk(d, "<", ">", cfg, "tiny-documents")
 
     @staticmethod
     def deep_doc(body):
@@ -227,6 +245,16 @@ class C02(Base):
         for cfg in (Cfg(targets=("",)), Cfg(targets=("", "a")), Cfg(off="", targets=("",))):
             for s in gen.g_atoms_exhaustive("<", ">", quick(tier, 3, 4), al2):
                 yield self.mk(s, "<", ">", cfg, "tag-atoms-empty-name")
+        # plain lines that contain the characters of the (default-style) delimiters (last, so that the families above
+        # draw the same random choices as before)
+        from . import common
+        for (_, label, src, ds, de, cfgj) in common.realistic_docs(rng.randrange(1 << 30), tier):
+            yield self.mk(src, ds, de, Cfg.from_json(cfgj), label)
+        # tag names that are proper suffixes / prefixes of each other; delimiters of very different lengths
+        for (_, label, src, ds, de, cfgj) in common.affix_docs(rng.randrange(1 << 30), tier):
+            yield self.mk(src, ds, de, Cfg.from_json(cfgj), label)
+        for (_, label, src, ds, de, cfgj) in common.lopsided_docs(rng.randrange(1 << 30), tier):
+            yield self.mk(src, ds, de, Cfg.from_json(cfgj), label)
 
     def spec_reqs(self, case, impl):
         k, v = parse_reply(impl[0])
